@@ -9,7 +9,7 @@ from .. import impl
 
 # package-declared names used in the menu
 PKG_DECL = {'\\textcolor': 'xcolor', 'proof': 'amsthm', '\\gls': 'glossaries', '\\text': 'amsmath', 'tikzpicture': 'tikz',
-            '\\includegraphics': 'graphicx'}
+            '\\includegraphics': 'graphicx', 'otherlanguage': 'babel', '\\foreignlanguage': 'babel'}
 # packages that load other packages
 REQUIRES = {'pgfplots': ['graphicx', 'tikz']}
 
@@ -54,12 +54,19 @@ ITEMS = [
     ('\\usepackage{pgfplots}', [('load', 'pgfplots')]),
     ('\\begin{tikzpicture}\\end{tikzpicture}', [('use', 'tikzpicture')]),
     ('\\includegraphics{f}', [('use', '\\includegraphics')]),
+    # package lists with white space around the commas
+    ('\\usepackage{xcolor ,amsthm}', [('load', 'xcolor'), ('load', 'amsthm')]),
+    ('\\usepackage{ amsthm\n ,graphicx\n , xcolor }', [('load', 'amsthm'), ('load', 'graphicx'), ('load', 'xcolor')]),
+    # babel: the environment's handler works with an internal helper macro, which must never show up as a used name
+    ('\\usepackage[german]{babel}', [('load', 'babel')]),
+    ('\\begin{otherlanguage}{german}Wo\\end{otherlanguage} Wp', [('use', 'otherlanguage')]),
+    ('\\foreignlanguage{german}{Wf}', [('use', '\\foreignlanguage')]),
 ]
 # phrase replacements must not touch the list of names
 REPL = ['\\ua & \\replaced\n', 'ux & uy\n', '\\ub \\uc & \n']
-PACKS = {'': set(), '*': {'xcolor', 'amsthm', 'glossaries', 'amsmath', 'tikz', 'graphicx', 'pgfplots'}, 'xcolor': {'xcolor'}, 'amsthm,amsmath': {'amsthm', 'amsmath'},
-         'xcolor,': {'xcolor'}, 'amsthm,,amsmath': {'amsthm', 'amsmath'}, 'cleveref,*': {'xcolor', 'amsthm', 'glossaries', 'amsmath', 'tikz', 'graphicx', 'pgfplots'},
-         '*,cleveref': {'xcolor', 'amsthm', 'glossaries', 'amsmath', 'tikz', 'graphicx', 'pgfplots'}}
+PACKS = {'': set(), '*': {'xcolor', 'amsthm', 'glossaries', 'amsmath', 'tikz', 'graphicx', 'pgfplots', 'babel'}, 'xcolor': {'xcolor'}, 'amsthm,amsmath': {'amsthm', 'amsmath'},
+         'xcolor,': {'xcolor'}, 'amsthm,,amsmath': {'amsthm', 'amsmath'}, 'cleveref,*': {'xcolor', 'amsthm', 'glossaries', 'amsmath', 'tikz', 'graphicx', 'pgfplots', 'babel'},
+         '*,cleveref': {'xcolor', 'amsthm', 'glossaries', 'amsmath', 'tikz', 'graphicx', 'pgfplots', 'babel'}}
 
 
 def model(seq, pack):
